@@ -76,7 +76,7 @@ func edfCaseInput(cs caseSpec, idx int) []byte {
 	if enumClasses[cs.Class] {
 		return enumInput(cs.Class, corpora[cs.Opt][cs.Item].enc, idx)
 	}
-	rng := hk.Rng("c16", cs.ID, fmt.Sprint(idx))
+	rng := inputRng(cs.ID, idx)
 	return randomInput(cs.Class, rng, corpora[cs.Opt])
 }
 
@@ -237,7 +237,7 @@ func predictedBomb(in []byte) bool {
 	return false
 }
 
-const bombsPerCase = 3
+const bombsPerCase = 2
 
 // oracles --------------------------------------------------------------------------------
 
@@ -322,8 +322,8 @@ func checkDecode(caseIdx int, cs caseSpec, idx int, data []byte, o optset, a *ag
 		mk("alloc-amplification/"+site, fmt.Sprintf("edf.Decode of %d input bytes allocated %d bytes (bound %d = 64MiB + 4096 x input)", len(data), r.allocd, allocBound(len(data))),
 			map[string]any{"alloc_stack": stack, "allocated": r.allocd})
 		debug.FreeOSMemory()
-		a.extra["expensive"]++
 		a.add("ALLOC OUT OF PROPORTION", true, events)
+		leaveAfterExpensive(cs.ID, a)
 		return
 	}
 	a.extra["max_alloc_per_call"] = max64(a.extra["max_alloc_per_call"], int64(r.allocd))
@@ -399,10 +399,14 @@ func checkDecode(caseIdx int, cs caseSpec, idx int, data []byte, o optset, a *ag
 			events++
 			if r3.escaped != nil || r3.err != nil {
 				ec := "panic"
-			if r3.err != nil {
-				ec = strings.TrimSpace(strings.ReplaceAll(strings.TrimPrefix(errClass(r3.err), "err: malformed EDF:"), " N", ""))
-			}
-			mk("roundtrip/re-decode-error/"+strings.ReplaceAll(ec, " ", "-"), fmt.Sprintf("re-encoded bytes of decoded %T do not decode: %v %v", r.val, r3.err, r3.escaped), map[string]any{"reencoded": hexOf(re)})
+				if r3.err != nil {
+					ec = strings.TrimSpace(strings.ReplaceAll(strings.TrimPrefix(errClass(r3.err), "err: malformed EDF:"), " N", ""))
+				}
+				sig := "roundtrip/re-decode-error/" + strings.ReplaceAll(ec, " ", "-")
+				if hasZeroSizeElem(reflect.TypeOf(r.val), 0) {
+					sig = "roundtrip/zero-size-elements-rejected"
+				}
+				mk(sig, fmt.Sprintf("re-encoded bytes of decoded %T do not decode: %v %v", r.val, r3.err, r3.escaped), map[string]any{"reencoded": hexOf(re)})
 			} else if ok, why := sameValue(r.val, r3.val); !ok {
 				sig := "roundtrip/value-differs"
 				if strings.Contains(why, "error text") && strings.Contains(why, "%") {
@@ -417,6 +421,29 @@ func checkDecode(caseIdx int, cs caseSpec, idx int, data []byte, o optset, a *ag
 		a.sample = map[string]any{"idx": idx, "hex": trunc(hexOf(data), 200), "outcome": class}
 	}
 	a.add(class, nontrivial, events)
+}
+
+// hasZeroSizeElem: the type contains a slice or array whose elements have size zero (their encoding is empty)
+func hasZeroSizeElem(t reflect.Type, depth int) bool {
+	if t == nil || depth > 12 {
+		return false
+	}
+	switch t.Kind() {
+	case reflect.Slice, reflect.Array:
+		if t.Elem().Size() == 0 {
+			return true
+		}
+		return hasZeroSizeElem(t.Elem(), depth+1)
+	case reflect.Map:
+		return hasZeroSizeElem(t.Key(), depth+1) || hasZeroSizeElem(t.Elem(), depth+1)
+	case reflect.Struct:
+		for i := 0; i < t.NumField(); i++ {
+			if hasZeroSizeElem(t.Field(i).Type, depth+1) {
+				return true
+			}
+		}
+	}
+	return false
 }
 
 func max64(a, b int64) int64 {
